@@ -55,6 +55,13 @@ CHECKS.update({
    note="Duplicating the final chunk (pure append after the logical end of the stream) is counted as excluded: no reader requests those bytes. File-based modifications are strided for files > 200 B."),
 })
 
+CHECKS.update({
+ "C06": dict(cat="exploration", design="DESIGN.md §3 C06",
+   technique="fuzzing: structure-aware mutation of valid encodings (proptest, role-labelled spans from the reference encoder) with an in-process semantic oracle; coverage-guided libFuzzer+ASan target in the thorough tier",
+   text="Valid encodings of generated types are mutated (lengths, tags, discriminants, chars, UTF-8, truncation, splices, random bodies) and loaded through single and bulk paths: the result must be Ok or Err; panics are violations unless they are allocation failures on a declared length the reference decoder confirms as absurd; for Ok every bool/char/enum discriminant must be valid and no collection may exceed what the input could encode. Process death is attributed to the case by the worker protocol.",
+   note="Inputs declaring lengths that would make the allocator fail (abort) or zero-width loops run for hours are skipped by a reference-decoder pre-screen or, when they slip through, counted as excepted (allocation >= 1 GiB for a < 4 kB input; 8 s per-case limit). Debug profile with overflow checks; release+ASan via the fuzz target."),
+})
+
 NOT_YET = {
 }
 
